@@ -151,6 +151,33 @@ Theorem appended_later_set_executed_partial p rs st :
 Proof. exact (later_appends_l p rs st). Qed.
 Print Assumptions appended_later_set_executed_partial.
 
+(* ---------------------------------------------------------------- dependency order of a run *)
+
+(* Within one phase no callback of a root runs before a callback of a root it depends on
+   (directly or not) - in the execute phase, across all execution rounds, for the roots
+   registered before RunDSL; in the Prepare, Validate and Finalize phases for every root
+   registered when the execution loop ends.  Any program. *)
+Theorem dependency_order_partial p :
+  StronglySorted (dep_ok (deps_of p) (claimed_roots p)) (fst (run_dsl p)).
+Proof. exact (dependency_order_l p). Qed.
+Print Assumptions dependency_order_partial.
+
+Theorem dependency_order_pairs_partial p t1 a t2 b t3 :
+  fst (run_dsl p) = t1 ++ a :: t2 ++ b :: t3 -> ev_phase a = ev_phase b ->
+  In (ev_root a) (claimed_roots p (ev_phase a)) -> reach (deps_of p) (ev_root a) (ev_root b) ->
+  ev_root a = ev_root b.
+Proof. exact (dependency_order_pairs_l p t1 a t2 b t3). Qed.
+Print Assumptions dependency_order_pairs_partial.
+
+(* The full statement (execute phase too, for every root registered at the end) is false
+   of the faithful model: a root that is executed as a mere dependency before it is
+   registered is ordered as if it had no dependencies. *)
+Theorem dependency_order_refuted :
+  exists p, snd (run_dsl p) = Done /\
+    ~ StronglySorted (dep_ok (deps_of p) (final_roots p)) (fst (run_dsl p)).
+Proof. exists witness_late_dep. destruct witness_late_dep_l as (A & _ & C). split; assumption. Qed.
+Print Assumptions dependency_order_refuted.
+
 (* ---------------------------------------------------------------- generator.Generate *)
 
 (* The roots handed to the plugin prepare functions, the generators and the plugin
@@ -195,6 +222,14 @@ Proof. vm_compute. reflexivity. Qed.
 (* a plugin root (1) that depends on the design root (0), registered first *)
 Example plugin_root_after_design :
   handover (mkP [mkR [] [] false None false; mkR [0] [] false None false] [1; 0]) = Some [[0; 1]; [0; 1]; [0; 1]].
+Proof. vm_compute. reflexivity. Qed.
+
+(* non-vacuity of dependency_order_partial: diamond, dependant registered first *)
+Example dependency_order_diamond :
+  map ev_root (filter (fun e => match ev_phase e with Exec => true | _ => false end)
+     (fst (run_dsl (mkP [mkR [] [[wsrc 1 []]] false None false; mkR [0] [[wsrc 2 []]] false None false;
+                         mkR [0] [[wsrc 3 []]] false None false; mkR [1; 2] [[wsrc 4 []]] false None false] [3; 2; 1; 0]))))
+  = [0; 2; 1; 3].
 Proof. vm_compute. reflexivity. Qed.
 
 Example self_dependency_is_a_cycle : roots 1 (fun _ => [0]) [0] = Cycle.
